@@ -306,4 +306,19 @@ func init() {
 	}})
 }
 
-var logWeights = Weights{"write-new": 10, "modify": 16, "add": 22, "commit": 26, "log": 18, "reset": 6, "switch": 4, "switch-c": 3, "branch": 2, "update-ref": 2, "tz": 1}
+func init() {
+	ops = append(ops, opGen{"switch-c-linebreak", hasCommit, func(g *G) Step {
+		// Goit accepts a line break in a branch name; the line-oriented listings (branch --list, reflog) cannot show
+		// such a name, which is why only the log profile uses it: the chain that log follows starts at HEAD's branch
+		n := g.E.Cur.HeadBr + "\n" + g.Pick([]string{"next", "x"}, "tail")
+		if strings.Contains(g.E.Cur.HeadBr, "\n") || g.E.Cur.HeadBr == "" {
+			n = "lb\nnext"
+		}
+		if _, ok := g.E.Cur.Branches[n]; ok {
+			return goit("switch", n)
+		}
+		return goit("switch", "-c", n)
+	}})
+}
+
+var logWeights = Weights{"switch-c-linebreak": 2, "write-new": 10, "modify": 16, "add": 22, "commit": 26, "log": 18, "reset": 6, "switch": 6, "switch-c": 5, "branch": 5, "update-ref": 2, "tz": 1}
